@@ -8,19 +8,24 @@ Open Scope Z_scope.
 Inductive case :=
 | Iso (cloner : Z) (what : string) (dyn : bool) (isolated overwritten : bool)
       (* the mutation probe in both directions and the overwrite check, made on the real objects *)
-| Late (cloner : Z) (cancelled : bool) (read_after_return : bool).
+| Late (cloner : Z) (cancelled : bool) (read_after_return : bool)
+      (* a unary call abandoned by its caller (context cancelled while the handler runs) whose handler
+         answers later all the same: was the caller's response message written after Invoke returned *)
+| LateWrite (cloner : Z) (returned_error : bool) (written_after_return : bool).
 
 (* sharing is predicted by the cloner model only for dynamic messages with the non-codec strategies (F22) *)
 Definition check_case (k : case) : bool :=
   match k with
   | Iso c _ dyn iso ow => (if dyn && negb (c =? 1) then true else iso) && ow
   | Late _ cancelled late => if cancelled then true else negb late
+  | LateWrite _ err written => err && negb written     (* the response is copied on the caller's goroutine only *)
   end.
 
 Definition oracle_case (k : case) : bool :=
   match k with
   | Iso c _ dyn iso ow => (iso || (dyn && negb (c =? 1))) && ow
   | Late _ cancelled late => negb late || cancelled
+  | LateWrite _ _ written => negb written
   end.
 
 Definition finding_case (k : case) : option string :=
